@@ -133,6 +133,10 @@ func DecodeInt33AsInt64(r io.ByteReader) (ret int64, bytesRead uint64, err error
 			break
 		}
 	}
+	if b&int33Mask != 0 {
+		// the 5th byte still has its continuation bit set: longer than ceil(33/7) bytes
+		return 0, 0, errOverflow33
+	}
 
 	// fixme: can be optimized
 	if shift < 33 && (b&int33Mask3) == int33Mask3 {
